@@ -132,12 +132,19 @@ func (p *Plenc) CodecForTypeRegistry(registry plenccodec.CodecRegistry, typ refl
 		c = plenccodec.PointerWrapper{Underlying: subc}
 
 	case reflect.Struct:
+		if tag != "" {
+			// A struct with a tag option must have a codec registered for it
+			return nil, fmt.Errorf("no codec available for %s with tag %q", typ, tag)
+		}
 		c, err = plenccodec.BuildStructCodec(p, registry, typ, tag)
 		if err != nil {
 			return nil, err
 		}
 
 	case reflect.Slice:
+		if tag != "" && tag != "proto" {
+			return nil, fmt.Errorf("no codec available for %s with tag %q", typ, tag)
+		}
 		subt := typ.Elem()
 		// We assume for now that any tag here will be selecting the array
 		// treatment, not the registry for the underlying type.
